@@ -48,9 +48,17 @@ def canon(v):
 
 
 def observe(fn):
+    from vlib.runner import _through_btclib
+
     try:
         return ["ok", canon(fn())]
+    except HarnessError:
+        raise
     except Exception as e:  # noqa: BLE001
+        if _through_btclib(e.__traceback__) is None and not type(e).__module__.startswith("btclib"):
+            # the callables build their arguments as they run: an exception that never saw a library frame is a fault of that building, the same
+            # on both arms, and would otherwise read as agreement
+            raise HarnessError(f"exception outside the library while observing: {type(e).__name__}: {e}") from e
         return ["exc", type(e).__module__ + "." + type(e).__name__]
 
 
@@ -497,7 +505,29 @@ def check_op(case):
     if obs[0] != obs[2]:
         raise Violation(f"{case['op']}:history-dependent", f"first={str(obs[0])[:200]} after toggling={str(obs[2])[:200]}")
     nontrivial = obs[0][0] == "ok" or not obs[0][1].endswith("TypeError")
-    return Outcome(nontrivial, (case["op"], obs[0][0] if obs[0][0] == "ok" else obs[0][1].split(".")[-1]))
+    outcome = obs[0][0] if obs[0][0] == "ok" else obs[0][1].split(".")[-1]
+    verdict = f":{obs[0][1]}" if obs[0][0] == "ok" and isinstance(obs[0][1], bool) else ""
+    return Outcome(nontrivial, (case["op"], outcome, f"{case['op']}:{outcome}{verdict}"))
+
+
+def validate_models() -> None:
+    """The two arms exist and the switch works (an install where the bindings are found but do not load would otherwise read as a crash of the library)."""
+    import btclib._libsecp256k1 as bridge
+
+    if not getattr(bridge, "INSTALLED", False):
+        raise HarnessError("btclib reports the libsecp256k1 bindings as not installed: there is one arm only")
+    prev = is_libsecp256k1_serving()
+    try:
+        seen = []
+        for want in (True, False, True):
+            set_libsecp256k1_serving(serving=want)
+            seen.append(is_libsecp256k1_serving())
+    except Exception as e:  # noqa: BLE001
+        raise HarnessError(f"the back-end switch refuses: {type(e).__name__}: {e}") from e
+    finally:
+        set_libsecp256k1_serving(serving=prev)
+    if seen != [True, False, True]:
+        raise HarnessError(f"the back-end switch does not switch: {seen}")
 
 
 SUBCHECKS = [
